@@ -26,9 +26,15 @@ def has_star_expression(node):
     return False
 
 
-def contains_unmanaged(value, node):
+def contains_unmanaged(value, node, *, with_node=False):
     """True if the value has parts which are controlled by the user
-    (Is(...), f-strings, star-expressions, ...)"""
+    (Is(...), f-strings, star-expressions, ...)
+
+    with_node: only the parts count which are written in the node
+    (not an Is(...) which is passed to some function)
+    """
+    if with_node and node is None:
+        return False
     if isinstance(value, Unmanaged) or isinstance(node, ast.JoinedStr):
         return True
     adapter = get_adapter_type(value)
@@ -36,7 +42,7 @@ def contains_unmanaged(value, node):
         if has_star_expression(node):
             return True
         return any(
-            contains_unmanaged(item.value, item.node)
+            contains_unmanaged(item.value, item.node, with_node=with_node)
             for item in adapter.items(value, node)
         )
     return False
